@@ -16,7 +16,7 @@ RULE = ("cases = every index expression of length <= MaxLen over {int, full slic
         "permutation and cycle notation; non-trivial = advanced indexing (adjacent/separated/int+array/2-D mask), Ellipsis, point at "
         "infinity, cycle notation")
 IDX_INVS = ["ProvInjective", "TypesFollowProvenance", "RankLaw"]
-AR_INVS = ["TensorLaws", "PointLaws", "TransposeIsPerm", "TensorProductAxes"]
+AR_INVS = ["TensorLaws", "PointLaws", "TransposeIsPerm", "TensorProductAxes", "ExpandKeepsTypes"]
 
 
 def make_index(ix, sizes):
@@ -236,6 +236,40 @@ def replay_arith(recs):
                         ok, obs = False, f"raised {type(e).__name__}: {e}"
                     if not ok:
                         out.append(dict(site=f"Point {name}", stratum="non-point-operand", case={"p": r["p"], "array": arr.tolist()}, expected=exp.tolist(), observed=obs))
+        elif t == "expand":
+            from geometer.base import TensorCollection
+            ty, ax = r["ty"], r["ax"]
+            sizes = [2, 3, 4][:len(ty)]
+            arr = np.arange(int(np.prod(sizes))).reshape(sizes) + 1
+            # a collection axis behind a tensor index arises by indexing a tensor axis with a list: build the collection with
+            # leading collection axes and turn the other ones into collection axes that way (one index operation per axis)
+            lead = 0
+            while ty[lead] == "free":
+                lead += 1
+            base_ty = [x if (x != "free" or k < lead) else "cov" for k, x in enumerate(ty)]
+            u = TensorCollection(arr, covariant=[k - lead for k, x in enumerate(base_ty) if x == "cov"], tensor_rank=len(ty) - lead)
+            for k, x in enumerate(ty):
+                if x == "free" and k >= lead:
+                    u = u[(slice(None),) * k + (list(range(sizes[k])),)]
+            case = {"types": ty, "axis": ax}
+            have = ["cov" if k in u._covariant_indices else "con" if k in u._contravariant_indices else "free" for k in range(len(ty))]
+            if have != ty or not np.array_equal(np.asarray(u.array), arr) or not isinstance(u, TensorCollection):
+                out.append(dict(site="TensorCollection.__getitem__/list-index-on-tensor-axis", stratum=st, case=case, expected={"types": ty}, observed={"types": have, "class": type(u).__name__}))
+                continue
+            try:
+                got = u.expand_dims(ax)
+                cov = sorted(k for k, x in enumerate(r["rty"]) if x == "cov")
+                con = sorted(k for k, x in enumerate(r["rty"]) if x == "con")
+                ok = r["ok"] and np.array_equal(np.asarray(got.array), np.expand_dims(arr, ax)) and sorted(got._covariant_indices) == cov \
+                    and sorted(got._contravariant_indices) == con
+                obs = {"shape": list(got.shape), "covariant": sorted(got._covariant_indices), "contravariant": sorted(got._contravariant_indices)}
+            except ValueError as e:
+                ok, obs = (not r["ok"]), f"raised ValueError: {e}"
+            except Exception as e:  # noqa: BLE001
+                ok, obs = False, f"raised {type(e).__name__}: {e}"
+            if not ok:
+                out.append(dict(site="TensorCollection.expand_dims", stratum=st, case=case,
+                                expected=({"types": r["rty"]} if r["ok"] else "ValueError (beyond the collection axes)"), observed=obs))
         elif t == "tprod":
             ty1, ty2, src = r["ty1"], r["ty2"], r["src"]
             a1 = (np.arange(int(np.prod([2, 3, 4][:len(ty1)]))) + 2).reshape([2, 3, 4][:len(ty1)])
@@ -369,7 +403,7 @@ def run(ctx: Ctx):
         cfg4 = cfg_text(constants={"MaxLen": 4, "MaxRank": t["maxrank"], "DoDump": True}, invariants=IDX_INVS, constraints=["Dump"]) + "\nCONSTANT Items <- ItemsSmall\n"
         r4 = ctx.tlc("C19_Index", cfg4, name="C19_Index-len4", dump=True)
         idx += [x for x in read_dump(r4["dump"]) if len(x["ix"]) == 4]
-    cfg2 = cfg_text(constants={"Tasks": {S("tens"), S("pts"), S("transpose"), S("tprod")}, "DoDump": True}, invariants=AR_INVS, constraints=["Dump"])
+    cfg2 = cfg_text(constants={"Tasks": {S("tens"), S("pts"), S("transpose"), S("tprod"), S("expand")}, "DoDump": True}, invariants=AR_INVS, constraints=["Dump"])
     r2 = ctx.tlc("C19_Arith", cfg2, dump=True)
     ar = list(read_dump(r2["dump"]))
     strata = {}
@@ -378,7 +412,8 @@ def run(ctx: Ctx):
     for need in ("basic", "basic/ellipsis", "adv-adjacent", "adv-separated", "int+array/adjacent", "int+array/separated", "bool-2d",
                  "tensor/tensor", "tensor/ndarray", "tensor/pyscalar", "point-at-infinity", "finite", "transpose/cycle", "transpose/perm",
                  "tensor_product/first-factor-contravariant-before-covariant", "tensor_product/second-factor-contravariant-before-covariant",
-                 "tensor_product/covariant-first-factors"):
+                 "tensor_product/covariant-first-factors", "expand_dims/rejected-position", "expand_dims/collection-axis-behind-tensor-index",
+                 "expand_dims/leading-collection-axes"):
         if not strata.get(need):
             raise MachineryError(f"stratum {need} never visited (vacuous)")
     ctx.log(f"{len(idx)} index cases, {len(ar)} arithmetic cases")
